@@ -84,7 +84,8 @@ Theorem C01_generation_is_mosaic :
   (forall i e, nth_error ends i = Some e -> fst e = MAXC) ->
   incr chroms -> (forall c, In c chroms -> 0 <= c) -> chroms <> [] ->
   forall prev ds, gen_tiles chroms prev -> Forall (draws_ok chroms prev) ds ->
-  exists g, sim_generation chroms ends prev ds = Ok g /            Forall2 (is_mosaic chroms ends prev) ds g.
+  exists g, sim_generation chroms ends prev ds = Ok g /\
+            Forall2 (is_mosaic chroms ends prev) ds g.
 Proof. exact generation_is_mosaic. Qed.
 Print Assumptions C01_generation_is_mosaic.
 
